@@ -57,7 +57,7 @@ func (b *c07B) atom(k int) []rj.Stmt {
 	panic("atom")
 }
 
-const c07NFrames = 21
+const c07NFrames = 24
 
 // frame wraps inner in construct k.
 func (b *c07B) frame(k int, inner []rj.Stmt) []rj.Stmt {
@@ -117,6 +117,12 @@ func (b *c07B) frame(k int, inner []rj.Stmt) []rj.Stmt {
 		name := fmt.Sprintf("np%d", id)
 		b.lib = append(b.lib, &rj.BlockDef{Name: name, Body: inner})
 		return []rj.Stmt{&rj.Yield{Name: name, Args: []rj.Param{{Name: "x", Val: b.val("A")}}}}
+	case 21:
+		return []rj.Stmt{&rj.Try{Body: inner}}
+	case 22: // the catch body runs with the scope and context from before the try, not with what the abandoned body had pushed
+		return []rj.Stmt{&rj.Try{Body: []rj.Stmt{&rj.Range{K: "x", Decl: true, X: rj.V("rS"), Body: []rj.Stmt{rj.Let("y", b.val("T")), rj.E(rj.V("undefinedName"))}}}, HasCatch: true, Catch: inner}}
+	case 23:
+		return []rj.Stmt{&rj.Try{Body: []rj.Stmt{&rj.If{Init: rj.Let("x", b.val("L")), Cond: rj.V("cT"), Then: []rj.Stmt{&rj.Range{X: rj.V("rS"), Body: []rj.Stmt{rj.E(rj.V("undefinedName"))}}}}}, HasCatch: true, CatchVar: "err", Catch: inner}}
 	case 15, 16:
 		fn := fmt.Sprintf("/inc%d.jet", id)
 		b.files = append(b.files, &rj.File{Name: fn, Body: inner})
@@ -412,7 +418,7 @@ func c07VarMapOracle(p *rj.Program, ref rj.Result, got rj.ImplResult) string {
 }
 
 func C07(r *core.Run) map[string]interface{} {
-	r.Rule = "statement sequences (<=3 over 11 atoms: := = multi-assign discard reads return) inside each of 20 frames (if, if-let, range forms, block/yield/include with and without context and parameters, yield-with-content), nested to depth 2 (thorough 3), under 4 variable origins (local only, VarMap, global, both); loop-variable capture over every ranger kind; distinct = distinct reference outputs"
+	r.Rule = "statement sequences (<=3 over 11 atoms: := = multi-assign discard reads return) inside each of 24 frames (if, if-let, range forms, try, catch bodies of tries abandoned inside a range / an if-let, block/yield/include with and without context and parameters, yield-with-content), nested to depth 2 (thorough 3), under 4 variable origins (local only, VarMap, global, both); loop-variable capture over every ranger kind; distinct = distinct reference outputs"
 	runSpace(r, c07Flat)
 	runSpace(r, c07Nest)
 	runSpace(r, c07Capture)
